@@ -3,14 +3,42 @@ headers) and of chunkings, shared by C01, C02, C06, C10."""
 import gen
 
 
+def _refl(x, n):
+    r = 0
+    for i in range(n):
+        if x >> i & 1:
+            r |= 1 << (n - 1 - i)
+    return r
+
+
+def _crc(data, width, poly, init, xorout):
+    """bit-by-bit reflected CRC, written from the catalogue parameters - deliberately not the library's table-driven code"""
+    crc, top, mask = init, 1 << (width - 1), (1 << width) - 1
+    for b in bytes(data):
+        crc ^= _refl(b, 8) << (width - 8)
+        for _ in range(8):
+            crc = ((crc << 1) ^ poly) & mask if crc & top else (crc << 1) & mask
+    return _refl(crc, width) ^ xorout
+
+
+_T8 = [_crc(bytes([i]), 8, 0x4D, 0x00, 0x00) for i in range(256)]      # reflected table, for speed only
+_T16 = [_crc(bytes([i]), 16, 0x1021, 0x0000, 0x0000) for i in range(256)]
+
+
 def crc8(b):
-    from zigpy_zboss.checksum import CRC8
-    return int(CRC8(bytes(b)).digest())
+    """CRC-8/KOOP (poly 0x4D, init 0xFF, reflected, xorout 0xFF) - the protocol's header checksum, independent of the library"""
+    c = 0xFF
+    for x in bytes(b):
+        c = _T8[c ^ x]
+    return c ^ 0xFF
 
 
 def crc16(b):
-    from zigpy_zboss.checksum import CRC16
-    return int(CRC16(bytes(b)).digest())
+    """CRC-16/KERMIT (poly 0x1021, init 0, reflected) - the protocol's body checksum, independent of the library"""
+    c = 0
+    for x in bytes(b):
+        c = _T16[(c ^ x) & 0xFF] ^ (c >> 8)
+    return c
 
 
 def raw_frame(flags, body, length=None, good_crc8=True, good_crc16=True):
